@@ -61,7 +61,54 @@ def gen_cases(rng, tier):
                                       "ipopt.hessian_approximation": "limited-memory"}
         cases.append({"spec": spec, "exprs": exprs, "vexpr": vexpr, "K": 3 if tier == "quick" else 5,
                       "refine": rng.choice([1, 2, 3, 5]), "seed": rng.getrandbits(32), "tap": bool(tap)})
+    if tier == "thorough":
+        cases.append({"kind": "suite"})
     return cases
+
+
+def run_suite(case):
+    """the repository's stable tests with the harness contracts (DM2numpy layout, grids, splines, clone) switched on"""
+    import json
+    import os
+    import subprocess
+    from .. import bootstrap
+    res = {"sig": "repository-test-suite-with-contracts", "evals": 0, "violations": [], "counters": {}}
+    stable = json.load(open("/root/.vp/BASELINE.json"))["stable_pass"] if os.path.exists("/root/.vp/BASELINE.json") else []
+    ids = []
+    for t in stable:
+        mod, rest = t.split(".", 1)[1].split(".", 1) if t.startswith("tests.") else (None, None)
+        # tests.test_misc.MiscTests::test_x -> tests/test_misc.py::MiscTests::test_x
+        m, cls_test = t[len("tests."):].split(".", 1)
+        ids.append(os.path.join(bootstrap.repo_dir(), "tests", m + ".py") + "::" + cls_test)
+    if not ids:
+        res["status"] = "inconclusive"
+        res["note"] = "no stable test list available"
+        return res
+    out = os.path.join(os.getcwd(), "contracts_suite.json")
+    env = dict(os.environ)
+    env["RV_CONTRACT_OUT"] = out
+    env["PYTHONPATH"] = os.pathsep.join([bootstrap.repo_dir(), bootstrap.VERIF_DIR, bootstrap.DEPS_DIR])
+    env["MPLBACKEND"] = "Agg"
+    try:
+        r = subprocess.run([bootstrap.PYTHON, "-m", "pytest", "-q", "-p", "no:cacheprovider", "-p", "rv.obs.pytest_contracts",
+                            "--timeout=900", "-x", "--no-header", "-rN"] + ids, env=env, capture_output=True, text=True,
+                           timeout=1500, cwd=os.getcwd())
+    except subprocess.TimeoutExpired:
+        res["status"] = "inconclusive"
+        res["note"] = "test suite timed out"
+        return res
+    if not os.path.exists(out):
+        res["status"] = "inconclusive"
+        res["note"] = "test-suite run produced no contract report: " + (r.stdout + r.stderr)[-400:]
+        return res
+    data = json.load(open(out))
+    res["evals"] = int(sum(data["counts"].values()))
+    res["counters"] = {"contract:" + k: v for k, v in data["counts"].items()}
+    res["counters"]["suite_returncode"] = r.returncode
+    res["violations"] = data["violations"]
+    res["nontrivial"] = res["evals"] > 0
+    res["sample"] = {"tests": len(ids), "contract_evaluations": data["counts"], "pytest_tail": r.stdout[-200:]}
+    return res
 
 
 def worker_init():
@@ -111,6 +158,8 @@ def uses_sym(mat, names):
 
 
 def run_case(case):
+    if case.get("kind") == "suite":
+        return run_suite(case)
     import casadi as ca
     from ..gen import build
     from ..obs import nlp
